@@ -515,7 +515,57 @@ func cmdCheck(args []string) {
 		undecided = append(undecided, "baseline obligation not generated (function/loop/contract changed): "+m)
 	}
 
+	// anchors: source text behind every ordinal a contract uses (loop N, call F#N)
+	anchorsPath := filepath.Join(verifRoot, "baseline", id+".anchors")
+	var anchorLines []string
+	curAnchors := map[string]string{}
+	for _, u := range units {
+		if u.res == nil || u.res.Gen == nil {
+			continue
+		}
+		for k, v := range u.res.Gen.anchors {
+			curAnchors[u.res.Gen.fnName+"\t"+k] = v
+			anchorLines = append(anchorLines, u.res.Gen.fnName+"\t"+k+"\t"+v)
+		}
+	}
+	staleFns := map[string]string{}
+	if !*writeBaseline {
+		for _, l := range readLines(anchorsPath) {
+			f := strings.SplitN(l, "\t", 3)
+			if len(f) != 3 {
+				continue
+			}
+			if cur, ok := curAnchors[f[0]+"\t"+f[1]]; ok && cur != f[2] {
+				staleFns[f[0]] = fmt.Sprintf("%s now refers to `%s` (was `%s`)", f[1], cur, f[2])
+			}
+		}
+	}
+	if len(staleFns) > 0 {
+		// a contract whose ordinals landed on different source text says nothing about the new code
+		var keep []*oblRun
+		for _, r := range failures {
+			stale := ""
+			for fn, why := range staleFns {
+				if strings.HasPrefix(r.o.Name, fn+"/") {
+					stale = why
+				}
+			}
+			if stale != "" {
+				undecided = append(undecided, r.o.Name+": contract anchor moved (stale-contract): "+stale)
+				if !r.o.ExpectSat {
+					total--
+				}
+				continue
+			}
+			keep = append(keep, r)
+		}
+		failures = keep
+	}
+
 	if *writeBaseline {
+		sort.Strings(anchorLines)
+		os.MkdirAll(filepath.Dir(anchorsPath), 0o755)
+		os.WriteFile(anchorsPath, []byte(strings.Join(anchorLines, "\n")+"\n"), 0o644)
 		sort.Strings(names)
 		os.MkdirAll(filepath.Dir(baselinePath), 0o755)
 		os.WriteFile(baselinePath, []byte(strings.Join(names, "\n")+"\n"), 0o644)
